@@ -98,6 +98,14 @@ bool is_private_or_reserved_ipv6(const std::string& host) {
     if (normalized == "::" || normalized == "::1") {
         return true;
     }
+    // An IPv4-mapped address (::ffff:a.b.c.d) is as routable as the IPv4 address it carries.
+    constexpr std::string_view kMappedPrefix{"::ffff:"};
+    if (normalized.rfind(kMappedPrefix, 0) == 0) {
+        std::array<std::uint8_t, 4> embedded{};
+        if (parse_ipv4(normalized.substr(kMappedPrefix.size()), embedded)) {
+            return is_private_or_reserved_ipv4(embedded);
+        }
+    }
     if (normalized.rfind("fc", 0) == 0 || normalized.rfind("fd", 0) == 0) {
         return true;  // Unique local addresses
     }
